@@ -10,9 +10,21 @@ Base/Res.vos Base/Res.vok Base/Res.required_vos: Base/Res.v
 Gen/Consts.vo Gen/Consts.glob Gen/Consts.v.beautified Gen/Consts.required_vo: Gen/Consts.v 
 Gen/Consts.vio: Gen/Consts.v 
 Gen/Consts.vos Gen/Consts.vok Gen/Consts.required_vos: Gen/Consts.v 
+Gen/ZfTables.vo Gen/ZfTables.glob Gen/ZfTables.v.beautified Gen/ZfTables.required_vo: Gen/ZfTables.v 
+Gen/ZfTables.vio: Gen/ZfTables.v 
+Gen/ZfTables.vos Gen/ZfTables.vok Gen/ZfTables.required_vos: Gen/ZfTables.v 
 Model/NameWire.vo Model/NameWire.glob Model/NameWire.v.beautified Model/NameWire.required_vo: Model/NameWire.v Base/Res.vo Base/Octets.vo Gen/Consts.vo
 Model/NameWire.vio: Model/NameWire.v Base/Res.vio Base/Octets.vio Gen/Consts.vio
 Model/NameWire.vos Model/NameWire.vok Model/NameWire.required_vos: Model/NameWire.v Base/Res.vos Base/Octets.vos Gen/Consts.vos
+Model/ZfParser.vo Model/ZfParser.glob Model/ZfParser.v.beautified Model/ZfParser.required_vo: Model/ZfParser.v Model/ZfReader.vo
+Model/ZfParser.vio: Model/ZfParser.v Model/ZfReader.vio
+Model/ZfParser.vos Model/ZfParser.vok Model/ZfParser.required_vos: Model/ZfParser.v Model/ZfReader.vos
+Model/ZfReader.vo Model/ZfReader.glob Model/ZfReader.v.beautified Model/ZfReader.required_vo: Model/ZfReader.v Base/Res.vo Base/Octets.vo Gen/Consts.vo Model/NameWire.vo Model/ZfStd.vo
+Model/ZfReader.vio: Model/ZfReader.v Base/Res.vio Base/Octets.vio Gen/Consts.vio Model/NameWire.vio Model/ZfStd.vio
+Model/ZfReader.vos Model/ZfReader.vok Model/ZfReader.required_vos: Model/ZfReader.v Base/Res.vos Base/Octets.vos Gen/Consts.vos Model/NameWire.vos Model/ZfStd.vos
+Model/ZfStd.vo Model/ZfStd.glob Model/ZfStd.v.beautified Model/ZfStd.required_vo: Model/ZfStd.v Base/Res.vo Base/Octets.vo Gen/ZfTables.vo
+Model/ZfStd.vio: Model/ZfStd.v Base/Res.vio Base/Octets.vio Gen/ZfTables.vio
+Model/ZfStd.vos Model/ZfStd.vok Model/ZfStd.required_vos: Model/ZfStd.v Base/Res.vos Base/Octets.vos Gen/ZfTables.vos
 Proofs/NameWireP.vo Proofs/NameWireP.glob Proofs/NameWireP.v.beautified Proofs/NameWireP.required_vo: Proofs/NameWireP.v Base/ListX.vo Model/NameWire.vo Spec/NameWireS.vo Spec/NameRepr.vo
 Proofs/NameWireP.vio: Proofs/NameWireP.v Base/ListX.vio Model/NameWire.vio Spec/NameWireS.vio Spec/NameRepr.vio
 Proofs/NameWireP.vos Proofs/NameWireP.vok Proofs/NameWireP.required_vos: Proofs/NameWireP.v Base/ListX.vos Model/NameWire.vos Spec/NameWireS.vos Spec/NameRepr.vos
